@@ -73,7 +73,15 @@ def run_case(case):
     res = Res()
     drv = tl.TreeDriver(res)
     desper = drv.desper
-    for op in case['ops']:
+    for n, op in enumerate(case['ops']):
+        if n and n == len(case['ops']) // 2:
+            # an earlier snapshot (taken, used and dropped) must not
+            # influence later ones
+            early = drv.root.get_static_map()
+            for name in list(drv.root.maps)[:2]:
+                early[name]
+            del early
+            res.tags['earlier_snapshot_taken'].add(True)
         if op[0] == 'set':
             drv.set(op[1], op[2])
         else:
